@@ -11,13 +11,14 @@ Counterparts in lance (pinned commit + `fix:` commits):
                                                    ReserveFragments; fragments_with_ids
   rust/lance/src/dataset/write/delete.rs           DeleteJob::execute_impl, apply_deletions            (`mkDelete`)
   rust/lance/src/dataset/write/update.rs           UpdateJob::execute_impl / commit_impl               (`mkUpdate`)
-  rust/lance/src/dataset/write/merge_insert.rs     execute_uncommitted_impl / exec::write (upsert)     (`mkMerge`)
+  rust/lance/src/dataset/write/merge_insert.rs     execute_uncommitted_impl / exec::write (upsert)     (`mkMerge`),
+                                                   update_fragments (partial source schema)            (`mkMergeCols`)
   rust/lance/src/dataset/write/retry.rs            execute_with_retry                                  (`runOp`)
   rust/lance/src/dataset/fragment.rs               FileFragment::{extend_deletions, write_deletions}   (`extendDeletions`)
   rust/lance/src/dataset/optimize.rs               plan_compaction / commit_compaction with one bin    (`compact`)
 
-A row is (ghost key = the unique key column, value).  A fragment is its data file (`rows`, identity abstracted to the number
-of data files `files`: nothing in this operation set changes it), its deletion vector `del` (offsets) and the metadata of its
+A row is (ghost key = the unique key column, value).  A fragment is its data files (`rows`; their identity is abstracted to
+their number `files`: only a column rewrite changes it, by adding one), its deletion vector `del` (offsets) and the metadata of its
 deletion file `dfile` (`tok` stands for read_version + the random id of `write_deletion_file`, `n` = num_deleted_rows).  The
 manifest is the fragment list plus the high-water mark of fragment ids.  Row addresses are (fragment id, offset).
 -/
@@ -147,6 +148,23 @@ def mkMerge (t : Table) (src : List Row) (tok : Nat) : Txn × List Addr :=
      removedOf t (t.addrsWhere (fun r => src.any (fun s => s.key == r.key))) tok,
      (t.rowsWhere (fun r => src.any (fun s => s.key == r.key))).map (srcFor src)
        ++ src.filter (fun s => !(t.scan.any (fun r => r.key == s.key))), 0⟩,
+   t.addrsWhere (fun r => src.any (fun s => s.key == r.key)))
+
+/-- merge_insert on the key with a PARTIAL source schema (key, v), WhenMatched::UpdateAll, WhenNotMatched::InsertAll
+    (Update / RewriteColumns, `update_fragments`): the matched rows are rewritten IN PLACE - every fragment with a matched
+    row gets one more data file holding the new column values, its deletion file stays - and the unmatched source rows go
+    to a new fragment.  No affected rows ("we have rewritten the fragments, not just the deletion files"). -/
+def mkMergeCols (t : Table) (src : List Row) : Txn × List Addr :=
+  (⟨.update,
+     t.frags.filterMap (fun f =>
+       if (offsetsOf (t.addrsWhere (fun r => src.any (fun s => s.key == r.key))) f.id).isEmpty then none
+       else some { f with
+         files := f.files + 1,
+         rows := f.rows.zipIdx.map (fun (r, o) =>
+           if (offsetsOf (t.addrsWhere (fun r => src.any (fun s => s.key == r.key))) f.id).contains o
+           then srcFor src r else r) }),
+     [],
+     src.filter (fun s => !(t.scan.any (fun r => r.key == s.key))), 0⟩,
    t.addrsWhere (fun r => src.any (fun s => s.key == r.key)))
 
 /-! ## Transaction::build_manifest -/
@@ -319,13 +337,20 @@ inductive OpKind where
   | del (keys : List Nat)
   | upd (keys : List Nat)
   | mrg (src : List Row)
+  | pmrg (src : List Row)
 deriving Repr
+
+/-- the writers that move rows (Delete, Update / RewriteRows) as opposed to rewriting columns in place -/
+def OpKind.movesRows : OpKind → Bool
+  | .pmrg _ => false
+  | _ => true
 
 def mk (t : Table) (op : OpKind) (tok : Nat) : Txn × List Addr :=
   match op with
   | .del keys => mkDelete t keys tok
   | .upd keys => mkUpdate t keys tok
   | .mrg src => mkMerge t src tok
+  | .pmrg src => mkMergeCols t src
 
 /-- execute_with_retry: build at the handle's version and commit; on a retryable conflict (and retries left) check out the
     latest version, build again and commit.  `withAff = false` is the older writer that does not pass affected_rows. -/
